@@ -31,6 +31,18 @@ CLAIMED = {
             "and checked against its defining equations; FP_RDC = MONTY only; known finding F16 (fp_exp_slide refuses exponents longer than the "
             "field size).",
             "DESIGN.md §5 C02"),
+    "C09": ("Lean 4 proofs (every scalar recoding represents exactly its input with the promised digit set, length and sparsity; fuel "
+            "sufficiency) + correspondence of all number-theoretic functions against their mathematical definitions at w=64 and w=8",
+            "Proved in Lean for the model: bn_rec_win / slw / naf (any width) / reg / jsf return digit strings whose value is exactly the "
+            "input, with digits in the promised set, the promised length bounds and the w-NAF non-adjacency; the loops' fuel never runs out. "
+            "Reductions (basic, Barrett, Montgomery, pseudo-Mersenne), exponentiations, inverse, gcd / extended gcd variants (gcd and Bezout "
+            "identity checked on every output), lcm, Legendre/Jacobi, integer square root, polynomial evaluation/roots, primality tests and "
+            "prime generation are class C: compared with the mathematical definition evaluated in Lean on ~5800 structured lines per run "
+            "(negative and oversized operands, Lehmer-fallback pairs, Carmichael / strong-pseudoprime corpus), not proved.",
+            "Trusted: Lean kernel; recoding models tied by correspondence; primality ground truth = deterministic Miller-Rabin below 2^80, "
+            "supplied factors or C18-certified parameter primes above; 'rejects every composite' is corpus-only; bn_is_prime_basic is a "
+            "trial-division filter (composites may pass by design); even moduli are refused by the Montgomery-based bn_mxp.",
+            "DESIGN.md §5 C09"),
     "C14": ("Lean 4 proofs (streaming SHA-256 = FIPS 180-4 for every chunking; md_hmac/nist_kdf/md_xmd = RFC 2104 / MGF1-KDF2 / RFC 9380; "
             "PKCS#7 + CBC round trip and rejection logic) + correspondence against standard-derived Lean specs",
             "Proved in Lean for the model: the streaming SHA-256 implementation equals the one-shot FIPS 180-4 definition for every message "
